@@ -48,18 +48,11 @@ proof fn lemma_counted_in_table(mb: Metablock, m: Map<KeyId, PublicKey>, ks: Seq
 
 //@include contracts/keyid_stub.rs
 
-// C02: a block is filed under the id of the first of its signatures whose key-id prefix equals the file's prefix
-pub open spec fn prefix_matches(mb: Metablock, j: int, short: Seq<char>) -> bool {
-    0 <= j < mb.signatures@.len() && spec_prefix(mb.signatures@[j].kid().id()) == short
-}
+//@include contracts/match_signatures_spec.rs
 //@extract src/verifylib.rs fn:match_signatures props=C02,C14
 //@subst D13 /sig\.key_id\(\)\.prefix\(\) == signer_short_key_id/ => sig.key_id().prefix().as_str() == signer_short_key_id
 //@contract
-    ensures
-        (forall|j: int| !prefix_matches(link_metablock, j, signer_short_key_id@)) ==> final(links_per_step)@ == old(links_per_step)@,   // [C02]
-        (exists|j: int| prefix_matches(link_metablock, j, signer_short_key_id@)) ==> exists|j: int| #[trigger] prefix_matches(link_metablock, j, signer_short_key_id@)
-            && (forall|i: int| 0 <= i < j ==> !prefix_matches(link_metablock, i, signer_short_key_id@))
-            && final(links_per_step)@ == old(links_per_step)@.insert(link_metablock.signatures@[j].kid(), link_metablock),   // [C02]
+//@include contracts/match_signatures.rs
 //@before /for sig in &link_metablock\.signatures/
     let ghost map0 = links_per_step@;
     let ghost mb = link_metablock;
